@@ -53,20 +53,28 @@ func runC07(c *Ctx) {
 	r.Rule("R07-delta", "for each move kind, the XOR terms ZobristTable.Move applies equal Hash(after) xor Hash(before), where after/before differ by exactly what Position.Move does (its toggles, new rights, new e.p. target) and Hash's term structure is read from ZobristTable.Hash", 11+1)
 	r.Rule("R07-seed", "node.hash is stored only by NewBoard (zt.Hash of the constructor's position and turn), PushMove (zt.Move of the pre-move hash, pre-move position and the move) and Fork (copy)", 3)
 	r.Rule("R07-keys", "table dimensions cover the index domains; every entry the hash can read is assigned from the seeded generator in the constructor; e.p. keys exist exactly for ranks 3 and 6 (so enpassant[0] is the zero key)", 6)
-
-	b := newBoardModel(c, "R07-delta")
-	if b == nil {
-		return
+	b, zmove, zhash := c07Delta(c, "R07-delta", "R07-keys")
+	if b != nil {
+		c.guard("R07-seed", func() { c07Seed(c, b, zmove, zhash) })
 	}
-	zmove := c.fn("R07-delta", "pkg/board", "ZobristTable", "Move")
-	zhash := c.fn("R07-delta", "pkg/board", "ZobristTable", "Hash")
+}
+
+// c07Delta decides incremental == from-scratch hashing per move kind, reporting under the given rule names.
+func c07Delta(c *Ctx, ruleDelta, ruleKeys string) (*boardModel, *ssa.Function, *ssa.Function) {
+	r := c.R
+	b := newBoardModel(c, ruleDelta)
+	if b == nil {
+		return nil, nil, nil
+	}
+	zmove := c.fn(ruleDelta, "pkg/board", "ZobristTable", "Move")
+	zhash := c.fn(ruleDelta, "pkg/board", "ZobristTable", "Hash")
 	if zmove == nil || zhash == nil {
-		return
+		return nil, nil, nil
 	}
 	epZeroOK := false
-	c.guard("R07-keys", func() { epZeroOK = c07Keys(c, b) })
+	c.guard(ruleKeys, func() { epZeroOK = c07Keys(c, b, ruleKeys) })
 	hashShape := false
-	c.guard("R07-delta", func() { hashShape = c07HashShape(c, b, zhash) })
+	c.guard(ruleDelta, func() { hashShape = c07HashShape(c, b, zhash, ruleDelta) })
 
 	zArg := absint.NewSym(zmove.Params[0].Type(), "z")
 	hArg := absint.NewSym(zmove.Params[1].Type(), "h")
@@ -75,7 +83,7 @@ func runC07(c *Ctx) {
 		cons := "board.ZobristTable.Move|" + s.String()
 		oks, _, und := b.runPositionMove(s, true)
 		if len(und) > 0 || len(oks) == 0 {
-			r.Undecided("R07-delta", cons, where, s.String(), "Position.Move not decided for this seed: "+strings.Join(und, "; "))
+			r.Undecided(ruleDelta, cons, where, s.String(), "Position.Move not decided for this seed: "+strings.Join(und, "; "))
 			continue
 		}
 		// all ok paths of Position.Move must agree on the successor
@@ -87,11 +95,11 @@ func runC07(c *Ctx) {
 			}
 		}
 		if !agree {
-			r.Undecided("R07-delta", cons, where, s.String(), "ok paths of Position.Move disagree on the successor position")
+			r.Undecided(ruleDelta, cons, where, s.String(), "ok paths of Position.Move disagree on the successor position")
 			continue
 		}
 		if !hashShape {
-			r.Undecided("R07-delta", cons, where, s.String(), "term structure of ZobristTable.Hash not established")
+			r.Undecided(ruleDelta, cons, where, s.String(), "term structure of ZobristTable.Hash not established")
 			continue
 		}
 		m, _ := b.seedArgs(s)
@@ -157,12 +165,12 @@ func runC07(c *Ctx) {
 		}
 		switch {
 		case undec != "":
-			r.Undecided("R07-delta", cons, where, s.String(), undec)
+			r.Undecided(ruleDelta, cons, where, s.String(), undec)
 		default:
-			r.Check(bad == "" && len(outs) > 0, "R07-delta", cons, where, s.String(), bad)
+			r.Check(bad == "" && len(outs) > 0, ruleDelta, cons, where, s.String(), bad)
 		}
 	}
-	c.guard("R07-seed", func() { c07Seed(c, b, zmove, zhash) })
+	return b, zmove, zhash
 }
 
 func dropItem(items []string, x string) []string {
@@ -212,7 +220,7 @@ func splitTop(s string) []string {
 // c07HashShape establishes the term structure of ZobristTable.Hash by abstract interpretation under
 // two occupancy abstractions (every square empty / every square occupied by an unknown piece), plus
 // the structural fact that the square loop carries only the hash and the square counter.
-func c07HashShape(c *Ctx, b *boardModel, zhash *ssa.Function) bool {
+func c07HashShape(c *Ctx, b *boardModel, zhash *ssa.Function, rule string) bool {
 	r := c.R
 	where := c.pos(zhash.Pos())
 	// loop-carried state: phis in loop headers
@@ -289,7 +297,7 @@ func c07HashShape(c *Ctx, b *boardModel, zhash *ssa.Function) bool {
 		good = false
 		detail += fmt.Sprintf(" loop carries %d values, expected exactly 2 (hash, square)", nphi)
 	}
-	return r.Check(good, "R07-delta", "board.ZobristTable.Hash term structure", where, "all-empty / all-occupied abstraction", detail)
+	return r.Check(good, rule, "board.ZobristTable.Hash term structure", where, "all-empty / all-occupied abstraction", detail)
 }
 
 // c07Seed checks who stores node.hash and with what.
@@ -354,10 +362,10 @@ func c07Seed(c *Ctx, b *boardModel, zmove, zhash *ssa.Function) {
 
 // c07Keys checks table dimensions and the constructor's assignment loops. Returns whether
 // enpassant[0] is provably never assigned (zero key).
-func c07Keys(c *Ctx, b *boardModel) bool {
+func c07Keys(c *Ctx, b *boardModel, rule string) bool {
 	r := c.R
 	zt := c.P.NamedType("pkg/board", "ZobristTable")
-	ctor := c.fn("R07-keys", "pkg/board", "", "NewZobristTable")
+	ctor := c.fn(rule, "pkg/board", "", "NewZobristTable")
 	if zt == nil || ctor == nil {
 		return false
 	}
@@ -387,7 +395,7 @@ func c07Keys(c *Ctx, b *boardModel) bool {
 			okDims = false
 		}
 	}
-	r.Check(okDims, "R07-keys", "board.ZobristTable dimensions", c.pos(zt.Obj().Pos()), "", fmt.Sprintf("dimensions %v, index domains need %v", dims, wantDims))
+	r.Check(okDims, rule, "board.ZobristTable dimensions", c.pos(zt.Obj().Pos()), "", fmt.Sprintf("dimensions %v, index domains need %v", dims, wantDims))
 
 	// stores in the constructor
 	type asg struct {
@@ -459,10 +467,10 @@ func c07Keys(c *Ctx, b *boardModel) bool {
 		a := found[field]
 		cons := "board.NewZobristTable assigns " + field
 		if a == nil {
-			r.Fail("R07-keys", cons, c.pos(ctor.Pos()), "", "no assignment found")
+			r.Fail(rule, cons, c.pos(ctor.Pos()), "", "no assignment found")
 			return
 		}
-		r.Check(a.fromRand && fmt.Sprint(a.ranges) == fmt.Sprint(want), "R07-keys", cons, c.pos(a.pos), "", fmt.Sprintf("index ranges %v fromGenerator=%v, need %v from the seeded generator", a.ranges, a.fromRand, want))
+		r.Check(a.fromRand && fmt.Sprint(a.ranges) == fmt.Sprint(want), rule, cons, c.pos(a.pos), "", fmt.Sprintf("index ranges %v fromGenerator=%v, need %v from the seeded generator", a.ranges, a.fromRand, want))
 	}
 	zeroPiece, _ := constVal(c.P, "pkg/board", "ZeroPiece")
 	chk("pieces", [][2]int64{{0, 1}, {zeroPiece, 6}, {0, 63}})
@@ -482,11 +490,11 @@ func c07Keys(c *Ctx, b *boardModel) bool {
 		}
 		sort.Slice(g, func(i, j int) bool { return g[i] < g[j] })
 		epOK = a.fromRand && fmt.Sprint(a.ranges) == "[[0 63]]" && fmt.Sprint(g) == fmt.Sprint([]int64{r3, r6})
-		r.Check(epOK, "R07-keys", "board.NewZobristTable assigns enpassant exactly on ranks 3 and 6", c.pos(a.pos), "", fmt.Sprintf("ranges %v guards(rank ==) %v fromGenerator=%v", a.ranges, g, a.fromRand))
+		r.Check(epOK, rule, "board.NewZobristTable assigns enpassant exactly on ranks 3 and 6", c.pos(a.pos), "", fmt.Sprintf("ranges %v guards(rank ==) %v fromGenerator=%v", a.ranges, g, a.fromRand))
 	} else {
-		r.Fail("R07-keys", "board.NewZobristTable assigns enpassant exactly on ranks 3 and 6", c.pos(ctor.Pos()), "", "no assignment found")
+		r.Fail(rule, "board.NewZobristTable assigns enpassant exactly on ranks 3 and 6", c.pos(ctor.Pos()), "", "no assignment found")
 	}
-	r.Check(seedOK, "R07-keys", "board.NewZobristTable seeds the generator from its parameter only", c.pos(ctor.Pos()), "", "rand.NewSource is not called with the seed parameter")
+	r.Check(seedOK, rule, "board.NewZobristTable seeds the generator from its parameter only", c.pos(ctor.Pos()), "", "rand.NewSource is not called with the seed parameter")
 	return epOK
 }
 
